@@ -18,6 +18,15 @@ pub struct Step<'a> {
     pub history: &'a [String],
     pub seed: u64,
     pub sid: u64,
+    /// C01: how the operation ended: "ok" | "panic" | "hang" (for "panic"/"hang" `post`, `ret`, `dict_post` are empty)
+    pub outcome: &'a str,
+    /// C01: `Some(description)` iff in the PRE-state some buffered syllable has no one-syllable word under a
+    /// lookup strategy in force (the option's, the engine's own, an open phrase selector's)
+    pub no_word_pre: Option<&'a str>,
+    /// C01: the same predicate on the POST-state (only computed after a successful operation)
+    pub no_word_post: Option<&'a str>,
+    /// C01: the first read-only accessor that panicked / hung on the post-state: (name, "panic" | "hang")
+    pub getter_fail: Option<(&'a str, &'a str)>,
 }
 
 impl Step<'_> {
